@@ -161,6 +161,19 @@ def sites(obj, path=()):
 
 
 OPS = ('del', 'null', 'empty', 'num', 'dup', 'samekey', 'linesep')
+# wave 13: unusual but legitimate values at a string site (not attribute
+# keys, not the digit strings of the timestamps): text that is not in a
+# Unicode normal form, the empty string, surrounding blanks, characters that
+# need escaping, text that looks like a JSON literal, and the JSON values 0 /
+# true where a string is usual (false is left out: the documentation speaks of
+# absent values only and jq's alternative operator also skips false)
+VOPS = {'v_nfd': lambda v: v + "e\u0301\u2126\u1112\u1161\u11ab",
+        'v_empty': lambda v: "",
+        'v_blank': lambda v: " " + v + " \t",
+        'v_esc': lambda v: v + '"q\\b/\tz\'',
+        'v_like': lambda v: "null",
+        'v_zero': lambda v: 0,
+        'v_true': lambda v: True}
 
 
 def apply(doc, path, op):
@@ -201,6 +214,12 @@ def apply(doc, path, op):
                 o[k] = o[k] + "\u2028x\x0by\x85z"
             else:
                 return None
+        elif op in VOPS:
+            if isinstance(o[k], str) and path[-1] != "key" \
+                    and not o[k].isdigit():
+                o[k] = VOPS[op](o[k])
+            else:
+                return None
         elif op == 'samekey':
             # give two attributes the same key: unspecified which wins ->
             # generated, compared only for "other records unaffected"
@@ -210,11 +229,11 @@ def apply(doc, path, op):
     return d
 
 
-def single_deviations():
+def single_deviations(ops=OPS):
     base = default_doc()
     out = []
     for p in sites(base):
-        for op in OPS:
+        for op in ops:
             if apply(base, p, op) is not None:
                 out.append((p, op))
     return out
@@ -343,6 +362,9 @@ def build(tier, ctx):
     one = [[list(map(_l, [s]))[0]] for s in singles]
     one = [[[list(p), op]] for p, op in singles]
     base = [[]]
+    vone = [[[list(p), op]] for p, op in single_deviations(tuple(VOPS))]
+    for mname, m in mappings(1 if tier == "quick" else 2):
+        add(mname + "/values", m, vone)
     if tier == "quick":
         for mname, m in mappings(2):
             add(mname, m, base + one)
@@ -377,7 +399,7 @@ def collect(tier, tasks, results, ctx):
     for t, r in zip(tasks, results):
         n += r["n"]
         nrec += r["records"]
-        maps.add(t["mname"])
+        maps.add(t["mname"].split("/")[0])
         for b in r["bad"]:
             viol.append({
                 "key": input_key(["C13", b["mapping_name"], b["devs"],
